@@ -6,8 +6,10 @@ cd /repo || exit 2
 if ! git diff --quiet; then echo "/repo has uncommitted changes; refusing"; exit 2; fi
 git apply "$patch" || { echo "patch does not apply"; exit 2; }
 cd /verif
+export GUCHECK_EVIDENCE_DIR=$(mktemp -d /tmp/seeded-evidence.XXXXXX)
 for p in $id "$@"; do
   ./check $p > /tmp/try_seed_$p.out 2>&1; code=$?
   echo "== $p exit=$code"; grep -v "^VIOLATION" /tmp/try_seed_$p.out | cut -c1-400 | head -12
 done
 git -C /repo checkout -- . ; git -C /repo status --short | grep -v date.txt
+rm -rf "$GUCHECK_EVIDENCE_DIR"
